@@ -10,10 +10,10 @@ G = "bounded-exhaustive enumeration of a finite configuration lattice on the rea
 T = {
  "C01": (G, "3", "every cell of (model family x likelihood x (n,d,m) x batch triple x parameter valuation x prediction-settings "
          "combination) is executed on the real ExactGP and compared with the dense float64 Gaussian conditional (mean, covariance, "
-         "variance, likelihood-added noise).",
+         "variance, likelihood-added noise); batch dimensions carried only by the targets / the noise / the mean.",
          "values outside the finite data/parameter lattice; Lanczos below full rank is an approximation and not claimed"),
  "C02": (G, "3", "every cell of (family x likelihood x prior assignment x batch shape x objective {MLL, LOO, SumMLL} x path) compared in value "
-         "AND gradient (autograd of an independent dense reference) ",
+         "AND gradient (autograd of an independent dense reference); a prior-bearing kernel object used twice; re-evaluation after a parameter update",
          "stochastic Lanczos log-det is a statistical estimator: only the deterministic Cholesky path (and CG inv-quad part) is decided"),
  "C03": (S, "3", "all operation sequences up to the depth bound over the public state-changing alphabet, on exact (default / KISS / SGPR / "
          "grid / multitask) and variational models; on every predict transition the output is compared with a freshly built model holding "
@@ -21,32 +21,32 @@ T = {
          "depth bound; finite data lattice; direct parameter edits in eval mode excluded as in the property"),
  "C04": (G + " x short histories (fantasy of fantasy)", "3", "every cell of (model batch x fantasy batch x shared/per-fantasy inputs x likelihood x strategy "
          "x settings x pre-history x fantasy depth) compared with a fresh ExactGP on the concatenated data; source digest/prediction unchanged; "
-         "carried caches recomputed from full data; un-batched inputs for batched models, 1-d shorthand inputs, forward keyword arguments", "finite data lattice; depth <= 4"),
+         "carried caches recomputed from full data; un-batched inputs for batched models, 1-d shorthand inputs, forward keyword arguments, model batch (1, b), inputs shared by a batch of models, KISS-GP with fixed noise, fantasy model independent of its source", "finite data lattice; depth <= 4"),
  "C05": (G, "3", "every exported kernel class x (d, n1!=n2, ARD, batch, parameter valuation, diag, code path, degenerate geometry) vs the documented "
          "covariance function written as an explicit scalar function of two rows", "finite input lattice"),
  "C06": (G + ", index expressions exhaustive on small shapes", "3", "kernel basis x broadcast triples x active_dims x lazy on/off x every index expression of the "
-         "per-dimension alphabet; oracle = index the dense result", "finite alphabet of index expressions / shapes"),
+         "per-dimension alphabet; oracle = index the dense result; kernels on discrete inputs; as many kernel batch members as points", "finite alphabet of index expressions / shapes"),
  "C07": (G + " + exhaustive subset lattice of observations", "3", "symmetry / eigenvalues of every covariance handed out over a geometry lattice incl. duplicates; all 2^4 "
          "training subsets and all edges of the subset lattice for monotone conditioning", "PSD for all real inputs is a theorem per kernel; only the lattice is decided"),
  "C08": (G, "3", "every (module, parameter batch shape, data batch shape) broadcastable pair of rank 0..2 x every batch element vs a non-batched replica",
          "finite shape alphabet"),
  "C09": (G, "3", "structured kernels vs explicit dense formulas; kernel-specific prediction strategies vs the default dense conditional on the same approximate matrix; "
-         "interpolation weights on every node/offset of small grids; finite refinement chain", "convergence is a limit: only the finite chain is decided"),
+         "interpolation weights on every node/offset of small grids; finite refinement chain; strategies also from non-initial states and at the training inputs", "convergence is a limit: only the finite chain is decided"),
  "C10": (G + ", index expressions exhaustive on small shapes", "3", "event size x batch triples x covariance representation x log_prob path; KL pairs; rsample on every basis "
-         "vector; arithmetic/expand/unsqueeze; every index expression", "sample-moment convergence replaced by x = mu + L e with L L^T = Sigma"),
- "C11": (G + ", index expressions exhaustive on small shapes", "3", "(n,t) x batch x layout x constructor x complete product of per-dimension index alphabets vs a 4-index joint covariance tensor",
+         "vector; arithmetic/expand/unsqueeze after warm-up histories; every index expression incl. numpy / 0-dim / mask / list index objects and paired index tensors", "sample-moment convergence replaced by x = mu + L e with L L^T = Sigma"),
+ "C11": (G + ", index expressions exhaustive on small shapes", "3", "(n,t) x batch x layout x constructor x complete product of per-dimension index alphabets (incl. numpy / 0-dim / mask / list objects and batch index tensors) vs a 4-index joint covariance tensor; arithmetic on and across both layouts",
          "finite shapes"),
- "C12": (G, "3", "likelihood class x rank x noise switches x batch shapes x layout x call-time noise; R written out densely", "finite lattice"),
+ "C12": (G, "3", "likelihood class x rank x noise switches x batch shapes x layout x call-time noise; R written out densely; call sequences <= 3 on one instance; every LikelihoodList entry point", "finite lattice"),
  "C13": (G + " + float32 sweep of log_normal_cdf", "3", "all polynomial degrees < 2*locs for each node count x (m,v) lattice; likelihood integrals vs adaptive quadrature; "
          "log_normal_cdf over a float32 bit-pattern lattice (thorough: all 2^32)", "truncation error for non-polynomial integrands bounded empirically along a finite chain"),
  "C14": (G, "3", "strategy x variational distribution x batch pattern x q(u) lattice x mode vs closed-form q(f) and KL with the documented jitter modelled (by argument and by the global setting); mean-only evaluation after a warm-up under other parameters; task_indices call mode of the multitask wrappers", "finite lattice"),
  "C15": (G + " (all 2^5-1 minibatch subsets)", "3", "objective formula for every minibatch subset x num_data x beta x q(u) lattice (single-output and multitask, combined and separate terms, attributes re-assigned after construction); ELBO <= log evidence; NGD step reaches the collapsed bound",
          "'for every q(u)' is decided on the q-lattice, the maximum exactly"),
- "C16": (G + " over all 2^n NaN patterns + " + S, "3", "all NaN patterns for n=4 (thorough: 5) / (n,t)=(3,2) / batches x policy x model vs the model on the data with those observations deleted; every order of policies up to length 3 (incl. a first prediction under ignore), fantasies with NaN, likelihood terms for batched targets",
+ "C16": (G + " over all 2^n NaN patterns + " + S, "3", "all NaN patterns for n=4 (thorough: 5) / (n,t)=(3,2) / batches x policy x model vs the model on the data with those observations deleted; every order of policies up to length 3 (incl. a first prediction under ignore), fantasies with NaN, likelihood terms for batched targets; SGPR / RFF / KISS strategies and the masked SGPR objective vs the same model on the deleted data; models sharing inputs and targets; task-major independent outputs (MLL)",
          "finite n"),
  "C17": (S + " + float sweep of transforms", "3", "every constraint class x bounds lattice x raw-value sweep (float32 lattice / all float32 thorough); all assignment/initialize/step "
          "sequences to depth 3 on every constrained parameter of every catalogue module vs a plain-map reference; prior densities vs scipy", "finite catalogue / depth"),
- "C18": (S, "3", "save points at every state of short histories x six persistence mechanisms (state_dict into a perturbed fresh / used / tensor-replaced model, pickle, torch.save, deepcopy) over a model catalogue; restored objects independent of the original; evolved plain attributes carried", "finite catalogue / depth"),
+ "C18": (S, "3", "save points at every state of short histories x eight mechanisms (state_dict into a perturbed fresh / used / tensor-replaced model, in-memory transfer with load_strict_shapes(False), pickle, torch.save, deepcopy, dtype conversion of a used copy) over a model catalogue; restored objects independent of the original; evolved plain attributes carried", "finite catalogue / depth"),
  "C19": (G + " (full Jacobians via basis upstream gradients)", "3", "every basis upstream gradient for each hand-written backward x input lattice hitting both branches of each piecewise definition "
          "vs autograd of an independent re-implementation and finite differences", "finite input lattice"),
  "C20": (S + " — programs of with-blocks with fault injection", "3", "all well-nested programs over every exported settings class x argument patterns up to the nesting bound with every exception placement, "
